@@ -38,3 +38,5 @@ func TestC13Corpus(t *testing.T) {
 	}
 	C13Cap.RunJobs(t, []string{"19 corpus messages x header capacity -1..20 x contact capacity -1..14 x flags {0,skip-body} x {one-shot, 7-byte steps}"}, jobs)
 }
+
+func TestC13MultiRapid(t *testing.T) { C13Multi.RunRapid(t) }
